@@ -72,15 +72,18 @@ def worker(args):
     e = dis.endian()
     ml = dis.maxlen
 
+    hist = [None]
+
     def finding(stage, exc, b, extra=None):
         key = "%s|%s|%s|%s" % (name, stage, site(exc) if isinstance(exc, BaseException) else exc, type(exc).__name__ if isinstance(exc, BaseException) else "malformed")
         if key not in res["finds"]:
-            res["finds"][key] = {"isa": name, "mode": k, "stage": stage, "bytes": b.hex(),
+            res["finds"][key] = {"isa": name, "mode": k, "stage": stage, "bytes": b.hex(), "history": [hist[0]] if hist[0] else [],
                                  "error": (repr(exc)[:160] if isinstance(exc, BaseException) else str(extra)[:160])}
 
     def probe(b):
         res["n"] += 1
-        isa.reset_pending(dis)
+        # the decoder keeps whatever its earlier calls left; sometimes junk that is not an instruction is decoded first
+        hist[0] = isa.junk_history(dis, (name, k))
         signal.alarm(10)
         try:
             try:
@@ -94,8 +97,6 @@ def worker(args):
             except Exception as x:
                 finding("decode", x, b)
                 return
-            finally:
-                isa.reset_pending(dis)
             if i is None:
                 return
             res["decoded"] += 1
